@@ -26,7 +26,7 @@ def disc_reply_v2(head20, device_id, head14, body, tail16):
 contract(DISC + "Discover._get_device_version",
          params={"data": "bytes"},
          rtype="int[1,3]",
-         raises={DISC + "DiscoverError": {}},
+         raises={DISC + "DiscoverError": {"when": "not (data[:2] == b'\\x5a\\x5a' or data[:2] == b'\\x83\\x70')"}},
          ensures={"v2_marker": "implies(result == 2, data[:2] == b'\\x5a\\x5a')",
                   "v3_marker": "implies(result == 3, data[:2] == b'\\x83\\x70')",
                   "binary_replies_are_not_v1": "implies(len(data) >= 2 and (data[:2] == b'\\x5a\\x5a' or data[:2] == b'\\x83\\x70'), result != 1)"})
@@ -74,6 +74,7 @@ contract(DISC + "_DiscoverProtocol.datagram_received",
          ensures={"address_is_remembered": "ip in self._discovered_ips",
                   "duplicates_create_nothing": "implies(seen, len(T) == 0)",
                   "at_most_one_task_per_datagram": "len(T) <= 1",
+                  "a_v2_or_v3_reply_from_a_new_address_gets_its_task": "implies(not seen and (data[:2] == b'\\x5a\\x5a' or data[:2] == b'\\x83\\x70'), len(T) == 1)",
                   "task_is_registered": "implies(len(T) == 1, T[0] in self.tasks)"})
 
 contract(DISC + "Discover._get_device",
